@@ -280,7 +280,8 @@ class Kernel:
             if fo.kind == "COLLECT" and loop.init.get(v) == ("list", ()) and not loop.has_break and not loop.has_return:
                 le = self.listexpr(t)
                 if le is not None:
-                    return KFold(kind="COMPR", term=le[2], source=le[0], filter=le[1], whole=le[3], loop=loop, via="append loop", ckind="list")
+                    k0 = KFold(kind="COMPR", term=le[2], source=le[0], filter=le[1], whole=le[3], loop=loop, via="append loop", ckind="list")
+                    return self._argset_from_canonical(k0) or k0
             return self._from_fold(loop, v, fo)
         if t[0] == "compr":
             loop = self.sx.loops[t[1]]
@@ -290,7 +291,8 @@ class Kernel:
                 return arg
             le = self.listexpr(t)
             if le is not None:
-                return KFold(kind="COMPR", term=le[2], source=le[0], filter=le[1], whole=le[3], loop=loop, via="comprehension", ckind=loop.ckind)
+                k0 = KFold(kind="COMPR", term=le[2], source=le[0], filter=le[1], whole=le[3], loop=loop, via="comprehension", ckind=loop.ckind)
+                return self._argset_from_canonical(k0) or k0
             return KFold(kind="COMPR", term=self.canon(loop.elt, loop.id), source=self._src(loop), filter=self.canon(flt, loop.id),
                          whole=loop.whole, loop=loop, via="comprehension", ckind=loop.ckind)
         if t[0] == "attr" and t[1][0] == "call" and t[1][1] in ("max", "min") and len(t[1][2]) == 1 and dict(t[1][3]).get("key") is not None:
@@ -428,6 +430,31 @@ class Kernel:
         if kf.key_mismatch:
             of.term = kf.key_mismatch[1]        # the actions are listed by this key ...
         return kf
+
+    def _argset_from_canonical(self, kf):
+        """A comprehension already brought to [label | source, filter] whose filter is `key == max/min([seed] ++ keys)` with the keys
+        taken over the same source: the arg-set (two passes over the list instead of one)."""
+        flt = kf.filter
+        if kf.kind != "COMPR" or not isinstance(flt, tuple) or flt[0] != "cmp" or flt[1] != "==" or getattr(kf, "ckind", "list") != "list" or not kf.whole:
+            return None
+        sides = (flt[2], flt[3])
+        ext = [x for x in sides if x[0] == "call" and x[1] in ("max", "min") and len(x[2]) == 1 and not [k for k, _ in x[3] if k != "default"]]
+        if len(ext) != 1:
+            return None
+        ext = ext[0]
+        cur = sides[0] if sides[1] == ext else sides[1]
+        kle, extra = self._list_arg(ext[2][0])
+        if kle is None or kle[1] != TRUE or not kle[3] or len(extra) > 1 or kle[0] != kf.source or cur != kle[2]:
+            return None
+        kws = dict(ext[3])
+        init = self.canon_top(kws["default"]) if "default" in kws else None
+        if extra:
+            init = self._seed_init(extra[0], kle[2], kf.source)
+        of = KFold(kind="EXT", sense=ext[1], strict=True, init=init, term=kle[2], source=kf.source, whole=True, loop=None, via="builtin " + ext[1])
+        out = KFold(kind="ARGSET", of=of, label=kf.term, ties=True, init=("list", ()), source=kf.source, filter=TRUE, whole=True, loop=kf.loop,
+                    via="filter by == %s(...)" % ext[1])
+        out.key_mismatch = None
+        return out
 
     def _src(self, loop):
         s = loop.source
